@@ -122,7 +122,7 @@ def tlc_must_pass(res, what):
     """A model run that must succeed on the model of the (fixed) design."""
     if res["ok"]:
         return
-    tail = "\n".join(res["out"].splitlines()[-60:])
+    tail = "\n".join([l for l in res["out"].splitlines() if not l.startswith(("Parsing file", "Semantic processing", "Linting of", "Progress("))][-40:])
     raise MachineryError("%s: TLC did not pass (violated=%s error=%s timed_out=%s)\n%s" % (
         what, res["violated"], res["error"], res["timed_out"], tail))
 
@@ -288,3 +288,43 @@ def read_json_lines(path):
             if line:
                 out.append(json.loads(line))
     return out
+
+
+# ----------------------------------------------------------------------------
+# Trace validation in chunks (one JVM per chunk, several in parallel)
+# ----------------------------------------------------------------------------
+from concurrent.futures import ThreadPoolExecutor
+
+
+def split_trace(lines, max_events, reset_marker='"ev":"reset"'):
+    """Split at reset events so that every chunk starts from the initial state."""
+    chunks, cur = [], []
+    for ln in lines:
+        if reset_marker in ln and len(cur) >= max_events:
+            chunks.append(cur)
+            cur = []
+        cur.append(ln)
+    if cur:
+        chunks.append(cur)
+    return chunks
+
+
+def validate_chunks(module, trace_name, chunks, cfg=None, parallel=4, timeout=1200, deque=False, extra_files=None):
+    """Returns list of dict(chunk=k, res=<run_tlc result>, fail_index=<value of i in the violating state or None>)."""
+    def one(k):
+        wd = scratch("verif-tr-")
+        with open(os.path.join(wd, trace_name), "w") as fh:
+            fh.write("\n".join(chunks[k]) + "\n")
+        r = run_tlc(module, cfg, workers=1, timeout=timeout, workdir=wd, deque=deque, files=extra_files)
+        fi = None
+        if r["violated"]:
+            tail = r["out"][r["out"].find("is violated"):]
+            m = re.findall(r"/\\ i = (\d+)", tail)
+            if m:
+                fi = int(m[-1])
+        out = dict(chunk=k, res=r, fail_index=fi)
+        if not os.environ.get("VERIF_KEEP"):
+            shutil.rmtree(wd, ignore_errors=True)
+        return out
+    with ThreadPoolExecutor(max_workers=parallel) as ex:
+        return list(ex.map(one, range(len(chunks))))
